@@ -29,6 +29,9 @@ def dataset(rng, xr, nfs=(2, 3, 5, 9, 14), exact=False, maxlead=2):
     th, dd, dmeta = gen.dir_grid(rng, nd=int(rng.choice([3, 4, 8, 12, 24])), full=True, exact=exact)
     lnames, lsizes = gen.lead_dims(rng, nlead=int(rng.integers(0, maxlead + 1)), maxsize=3)
     A, _ = gen.stack_spectra(rng, f, th, lsizes, cls=str(rng.choice(["multimodal", "noise", "plateau"])), distinct=False)
+    if lsizes and rng.random() < 0.3:
+        # a calm record (no energy at all) among the others
+        A.reshape((-1,) + A.shape[-2:])[int(rng.integers(int(np.prod(lsizes))))] = 0.0
     dt = str(rng.choice(["float64", "float32"]))
     x = gen.make_da(A, f, th, lnames, lsizes, dtype=dt)
     stored = str(rng.choice(["sorted", "sorted", "rolled", "reversed"]))
@@ -193,6 +196,8 @@ def bbox(ctx, rng, xr):
         if layout == "free":
             fmin, fmax = sorted([edge(f[0] * 0.9, f[-1] * 1.1, f), edge(f[0] * 0.9, f[-1] * 1.1, f)])
         d0, d1 = sorted([edge(-5, 365, th), edge(-5, 365, th)])
+        if rng.random() < 0.12:
+            d0 = d1 = float(rng.choice(th))          # a box selecting a single direction (zero height)
         box = {"fmin": fmin, "fmax": fmax, "dmin": d0, "dmax": d1}
         fl = dict(box)
         for kdrop, default in (("fmin", float(f.min())), ("fmax", float(f.max())), ("dmin", float(th.min())), ("dmax", float(th.max()))):
@@ -222,7 +227,9 @@ def bbox(ctx, rng, xr):
     try:
         r = x.spec.partition.bbox([dict(b) for b in boxes])
     except ValueError as e:
-        if share or area_overlap:
+        if share and not area_overlap:
+            rec.skip("bbox", "boxes only touch on a grid node (no area in common, yet a bin in both): the statement does not say which")
+        elif share or area_overlap:
             rec.ok("bbox_overlap_rejected", key)
         else:
             mech = "bbox-omitted-dmax-defaults-to-lowest-direction" if any("dmax" not in b for b in boxes) else "bbox-disjoint-boxes-rejected"
@@ -230,6 +237,9 @@ def bbox(ctx, rng, xr):
         return
     except Exception as e:
         rec.bad("bbox", key, {"boxes": boxes, "raised": repr(e)[:300]}, "bbox-raises")
+        return
+    if share and not area_overlap:
+        rec.skip("bbox", "boxes only touch on a grid node (no area in common, yet a bin in both): the statement does not say which")
         return
     if share:
         rec.bad("bbox_overlap_rejected", key, {"boxes": boxes, "freq": f, "dir": th}, "bbox-overlapping-boxes-accepted")
